@@ -352,7 +352,7 @@ const KIND_BITS: [usize; 12] = [8, 16, 32, 64, 8, 16, 32, 64, 8, 16, 32, 64];
 
 pub fn run(p: &Params) -> Outcome {
     let seed = p.seed;
-    let (max_off, n_bg, n_random) = if p.thorough { (135usize, 6usize, 1500usize) } else { (71, 3, 40) };
+    let (max_off, n_bg, n_random) = if p.thorough { (135usize, 8usize, 4000usize) } else { (135, 4, 300) };
     let mut jobs: Vec<(usize, usize)> = Vec::new();
     for k in 0..12 {
         for w in 1..=KIND_BITS[k] {
